@@ -55,6 +55,8 @@ func gen(t *rapid.T) Case {
 			h.Ops = append(pre, h.Ops...)
 		}
 	}
+	// every history ends with a query (a third of them would hold none otherwise)
+	h.Ops = append(h.Ops, rtreekit.Op{K: rapid.SampledFrom([]string{"nn", "knn"}).Draw(t, "lastq"), Qx: rapid.IntRange(-4, 48).Draw(t, "lastqx"), Qy: rapid.IntRange(-4, 48).Draw(t, "lastqy"), Kn: rapid.IntRange(1, 12).Draw(t, "lastk")})
 	return h
 }
 
